@@ -84,6 +84,51 @@ theorem C13_flood_outcome_counterexample :
     (consumeSet [⟨1000, 100, 5, 0, 0, 0⟩] 150 5).2 = .delay 400 ∧
     (consumeSet (consumeSet [⟨1000, 100, 5, 0, 0, 0⟩] 150 5).1 200 2).2 = .delay 100 := by decide
 
+/-- **What a refused request does cost: less than one token interval of accrued time per bucket.**
+    A refusal leaves every bucket as its bare refill (`C13_reject_no_debit`); that refill (like the one of an
+    admitted request) moves `lastRefresh` to `now` when at least one whole token has accrued and drops the
+    remainder.  For every well-formed bucket: (i) if less than `tpt` has passed since `lastRefresh` the bucket is
+    untouched — refusals less than `tpt` apart lose nothing; (ii) the time credited is never more than the time
+    that passed (`tpt · credited ≤ lr' − lr`), and (iii) unless the bucket is full afterwards, less than `tpt` is
+    discarded (`lr' − lr < tpt · credited + tpt`).  So `k` refusals cost a bucket fewer than `k` tokens, and
+    refusals spaced just under `2·tpt` can halve its refill rate — but never more. -/
+theorem C13_refusal_loss_bound (b : Bucket) (now : Nat) (hb : b.WF now) :
+    (now - b.lr < b.tpt → b.refill now = b) ∧
+    b.lr + b.tpt * ((b.refill now).avail - b.avail) ≤ (b.refill now).lr ∧
+    ((b.refill now).avail < b.burst →
+      (b.refill now).lr < b.lr + b.tpt * ((b.refill now).avail - b.avail) + b.tpt) := by
+  obtain ⟨htpt, hav, hlr⟩ := hb
+  have hdiv : b.tpt * ((now - b.lr) / b.tpt) ≤ now - b.lr := Nat.mul_div_le _ _
+  have hlt : now - b.lr < b.tpt * ((now - b.lr) / b.tpt) + b.tpt := by
+    have := Nat.lt_mul_div_succ (now - b.lr) htpt
+    rw [Nat.mul_add] at this; simpa using this
+  have hsmall : now - b.lr < b.tpt → (now - b.lr) / b.tpt = 0 := fun h => Nat.div_eq_of_lt h
+  have hne : b.tpt ≠ 0 := by omega
+  have ha := refill_avail b now hne
+  have hl := refill_lr b now
+  refine ⟨?_, ?_, ?_⟩
+  · intro h
+    have hz := hsmall h
+    apply Bucket.ext'
+    all_goals first | rfl | simp [refill_period, refill_tpt, refill_burst, refill_lastConsumed] | skip
+    · rw [ha, hz]; omega
+    · rw [hl, hz]; simp
+  · rw [ha, hl]
+    generalize (now - b.lr) / b.tpt = c at *
+    by_cases hc0 : c = 0
+    · subst hc0; simp
+    · simp only [hne, hc0, or_self, if_false]
+      have : b.tpt * (min (b.avail + c) b.burst - b.avail) ≤ b.tpt * c := Nat.mul_le_mul_left _ (by omega)
+      omega
+  · rw [ha, hl]
+    generalize (now - b.lr) / b.tpt = c at *
+    intro hfull
+    by_cases hc0 : c = 0
+    · subst hc0; simp; omega
+    · simp only [hne, hc0, or_self, if_false]
+      have : min (b.avail + c) b.burst - b.avail = c := by omega
+      rw [this]; omega
+
 /-! ### the advertised delay -/
 
 /-- **The advertised delay suffices** (set level): refused with delay `d` at `now`, retried at any
@@ -216,6 +261,9 @@ theorem C13_over_burst_is_error_limiter (rates : List Rate) (hv : ValidRates rat
 /-! ### non-vacuity -/
 section NonVacuity
 
+-- the loss bound on the counterexample's bucket: at 150 one token is credited and 50 ns (< tpt = 100) are dropped
+example : (⟨1000, 100, 5, 0, 0, 0⟩ : Bucket).WF 150 ∧ ((⟨1000, 100, 5, 0, 0, 0⟩ : Bucket).refill 150).lr = 150 ∧
+    ((⟨1000, 100, 5, 0, 0, 0⟩ : Bucket).refill 150).avail = 1 := by decide
 -- two rates (1 s: burst 1; 1 h: 100 tokens, burst 100): the short one refuses, the long one is not debited
 example : (consumeSet [mkBucket ⟨second, 1, 1⟩ 0, mkBucket ⟨3600 * second, 100, 100⟩ 0] 0 1).2 = .ok ∧
     (consumeSet (consumeSet [mkBucket ⟨second, 1, 1⟩ 0, mkBucket ⟨3600 * second, 100, 100⟩ 0] 0 1).1 5 1).2
